@@ -210,6 +210,48 @@ a float64 Vasicek simulation is float32-accurate (E04 agent; same observation as
 """
 
 
+INTRO6 = """### 9.4f Sixth round: behaviour-preserving refactorings (the false-alarm bench)
+
+The checks must never raise an alarm on code where the properties hold, and until here that direction had been probed only by my own
+behaviour-preserving variants (§7, `selftest/silent_all.py`). Ten fresh sub-agents (same isolation) each received a file group and had to
+write four realistic refactorings that leave the behaviour *exactly* unchanged - extract / inline a helper, rename locals, loops <->
+comprehensions, equivalent torch API, keyword for positional arguments, guard clauses, de Morgan, hoisted sub-expressions, a method pulled up
+to a base class, a helper moved to another module - each with a demo that prints a digest over the bytes of everything it computes (values,
+dtypes, exception messages, RNG state, gradients) which has to be identical on the clean and on the refactored tree, and with the pinned suite
+at 933/933. NREF candidates, re-confirmed by `tools/refactor.py verify` (`refactorings/Rnn-k/`). `tools/refactor.py check` runs every check
+on every refactored tree; any exit code other than 0 is a false alarm (1) or a brittle analysis (2). First run: FIRSTREF. After the work
+below all are silent in all twenty checks (`refactorings/RESULTS.md`).
+
+| refactoring | verdict | checks that do not exit 0 | what the change is |
+|---|---|---|---|
+"""
+
+CHANGES6 = """
+What the refactoring round changed (none of these touched a verdict on a seeded defect - the full bench was re-run afterwards):
+
+* **R03-2** (`compute_hedge`: the step-by-step loop as a list comprehension): the interpreter evaluated a comprehension body once for a generic
+  element - without the loop machinery that carries state from one iteration to the next (the forward hook storing the previous output).
+  A list comprehension over a range of unknown length is now desugared into the loop it abbreviates.
+* **R04-4** (`_start_index` inlined into `payoff_fn`) and **R06-3** (`_generate_1d` inlined into `__call__`): two rules were anchored at a
+  private helper and stopped with "anchor vanished". The forward-start index is now read off the call `payoff_fn` makes to the payoff
+  functional, and the Sobol-engine rule judges what `engine(N, T, dtype=, device=)` returns, whatever helpers the class splits the work into
+  (`rand.unbind(dim=1)` for `rand[:, 0], rand[:, 1]`, `SobolEngine(dimension=2)` for `SobolEngine(2)` included; `f(*t)` with a symbolic
+  sequence fills the callee's open positional parameters).
+* **R05-4** (dtype validation of `to()` moved into a module-level helper with an early return): C17.R2 looked for an `if ...: raise` guard
+  inside `to()`; it now accepts any branch decided on `is_floating_point` whose other side raises before any state is changed.
+* **R10-3** (a dict comprehension) and **R10-4** (`bisect(fn, target=..., lower=..., upper=...)` by keyword): unsupported expression; a rule
+  that read call arguments by position. Call events now carry the arguments *by parameter name* (`bound`), and the rule uses that.
+* **Mechanical rewrites of the whole package** (`selftest/refactor_gen.py`, each confirmed by the pinned suite before it is used): every
+  positional argument of a call to a pfhedge function passed by keyword (270 sites), every `return <expr>` through a local (271), conditional
+  expressions as if/else (15), every local variable renamed (388), method form to function form (`x.exp()` -> `torch.exp(x)`, 94), list
+  comprehensions <-> appending loops. They found what single refactorings cannot: the re-binding rule and the front end demanded the
+  positional form of `_set_attr_and_docstring`, a summary unpacked its arguments positionally, C15's protocol trace recognised the per-epoch
+  record by the local name `history`, C16's coverage scan exempted counters by the names `n_iter`, `out`, ... - name lists are replaced by
+  structural criteria (a local only ever bound to Python numbers or strings). All seven rewrites are silent in all twenty checks now.
+
+"""
+
+
 def rows_for(prefix_re):
     out = []
     for line in (V / "seeded" / "RESULTS.md").read_text().splitlines():
@@ -240,7 +282,7 @@ def main():
         t_ = "".join(f"| {sid} ({prop}) | {what} | {verdict} | {fired} | {rule} |\n" for sid, prop, what, verdict, fired, rule in r_)
         s = p.read_text()
         a = s.find(tag)
-        nxt = [x for x in (s.find("### 9.4e ") if tag == "### 9.4d " else -1, s.find("### 9.5 ")) if x != -1]
+        nxt = [x for x in (s.find("### 9.4e ") if tag == "### 9.4d " else s.find("### 9.4f "), s.find("### 9.5 ")) if x != -1]
         b = min(nxt)
         if a == -1:
             a = b
@@ -248,5 +290,31 @@ def main():
         print(f"{tag.strip()} written: {len(r_)} rows")
 
 
+def refactorings():
+    res = V / "refactorings" / "RESULTS.md"
+    if not res.exists():
+        return
+    rows6 = []
+    for line in res.read_text().splitlines():
+        m = re.match(r"\| (R\d\d-\d) \| ([A-Za-z-]+) \| ([^|]*) \| ([^|]*) \|", line)
+        if m:
+            rows6.append(tuple(x.strip() for x in m.groups()))
+    if not rows6:
+        return
+    first = {"R03-2": "analysis error in C02, C03, C14, C16, C17", "R04-4": "analysis error in C12, C13", "R05-4": "FALSE ALARM C17.R2", "R06-3": "analysis error in C10, C11, C16",
+             "R10-3": "FALSE ALARM C02.R4 + analysis errors in C03, C07, C08, C14, C16", "R10-4": "analysis error in C06, C19"}
+    intro = INTRO6.replace("NREF", str(len(rows6))).replace("FIRSTREF", f"{len(rows6) - len(first)} silent everywhere, 2 with a false alarm, 4 that stopped one or more checks with an analysis error")
+    t_ = "".join(f"| {rid} | {verdict}{' (first run: ' + first[rid] + ')' if rid in first else ''} | {which} | {what[:140]} |\n" for rid, verdict, which, what in rows6)
+    p = V / "DESIGN.md"
+    s = p.read_text()
+    a = s.find("### 9.4f ")
+    b = s.find("### 9.5 ")
+    if a == -1:
+        a = b
+    p.write_text(s[:a] + intro + t_ + CHANGES6 + s[b:])
+    print(f"### 9.4f written: {len(rows6)} rows")
+
+
 if __name__ == "__main__":
     main()
+    refactorings()
